@@ -457,5 +457,74 @@ func runC10Workload(c *runCtx) {
 			break
 		}
 	}
+	// every tokenizer run is recorded with the size of the text it was given — accepted, lexically wrong, or refused for
+	// its size alike — through a fresh tokenizer and through pooled ones reused across the
+	// sequence, alone and from several goroutines: operations, bytes, smallest and largest size are exact
+	{
+		big := make([]byte, tokenizer.MaxInputSize+1)
+		for i := range big {
+			big[i] = ' '
+		}
+		copy(big, "SELECT 1")
+		type step struct {
+			in  []byte
+			ctx context.Context // nil: Tokenize
+		}
+		seq := []step{{[]byte("SELECT a, b FROM t"), nil}, {big, nil}, {[]byte("SELECT 'never closed"), nil}, {[]byte("x"), nil}, {big, context.Background()},
+			{[]byte("SELECT a FROM t WHERE b = 1 AND c = 2"), context.Background()}, {[]byte("SELECT \"q"), context.Background()}, {[]byte("SELECT 1;"), nil}}
+		var wantBytes, wantMin, wantMax int64 = 0, -1, 0
+		for _, st := range seq {
+			n := int64(len(st.in))
+			wantBytes += n
+			if wantMin < 0 || n < wantMin {
+				wantMin = n
+			}
+			if n > wantMax {
+				wantMax = n
+			}
+		}
+		runSeq := func(pooled bool) {
+			var tk *tokenizer.Tokenizer
+			for _, st := range seq {
+				if pooled {
+					tk = tokenizer.GetTokenizer()
+				} else {
+					tk, _ = tokenizer.New()
+				}
+				if st.ctx == nil {
+					_, _ = tk.Tokenize(st.in)
+				} else {
+					_, _ = tk.TokenizeContext(st.ctx, st.in)
+				}
+				if pooled {
+					tokenizer.PutTokenizer(tk)
+				}
+			}
+		}
+		for _, pooled := range []bool{false, true} {
+			for _, G := range []int{1, 6} {
+				metrics.Reset()
+				var wg sync.WaitGroup
+				for gi := 0; gi < G; gi++ {
+					wg.Add(1)
+					go func() {
+						defer wg.Done()
+						for k := 0; k < 3; k++ {
+							runSeq(pooled)
+						}
+					}()
+				}
+				wg.Wait()
+				st := metrics.GetStats()
+				res.Evaluations++
+				runs := int64(G * 3)
+				if st.TokenizeOperations != runs*int64(len(seq)) || st.TotalBytesProcessed != runs*wantBytes || st.MinQuerySize != wantMin || st.MaxQuerySize != wantMax {
+					res.fail("metrics-sizes-inexact", "after a known sequence of tokenizer runs (accepted, wrong, over the size limit) the recorded operations / bytes / smallest / largest size are not those of the texts given",
+						map[string]any{"pooled_tokenizers": pooled, "goroutines": G, "sizes": []int{18, len(big), 20, 1, len(big), 37, 9, 9}},
+						map[string]any{"ops": st.TokenizeOperations, "want_ops": runs * int64(len(seq)), "bytes": st.TotalBytesProcessed, "want_bytes": runs * wantBytes, "min": st.MinQuerySize, "want_min": wantMin, "max": st.MaxQuerySize, "want_max": wantMax})
+				}
+			}
+		}
+	}
 	metrics.Disable()
 }
